@@ -258,6 +258,13 @@ pub fn run(out: &Path, seed: u64, thorough: bool, prop: &str) -> Result<(), Box<
                 }
             }
             if out_term == "OPanic" { problem = Some("panic".into()); out_term = "OPanic".into(); }
+            // independent reference (no model): a call that is answered with an error wrote nothing, neither to
+            // the caches nor to the disk
+            if out_term == "ORejected" && outp.events.iter().any(crate::sim::is_mutation) && problem.is_none() {
+                let w: Vec<String> = outp.events.iter().filter(|e| crate::sim::is_mutation(e)).take(4).map(crate::sim::ev_string).collect();
+                failures.push(json!({"what": format!("{}: the rejected call {} wrote to the database: {}", prop, resolved.kind(), w.join("; ")), "case": {"history": run.history()}}));
+                problem = Some(String::new());
+            }
             // the store operations recorded while this call was served (shape check: Model/Allowed.v)
             {
                 let mut t = crate::trace::Tracer::new();
